@@ -265,12 +265,12 @@ def r5_default_election(ctx):
     g = N.conj(astx.path_condition(f.node, hits[0], pm))
     lits = literals(g)
     want_eq = bool_key(spec_guard("NC == M - E", int_atoms=lambda a: True))
-    none_above = any(re.fullmatch(r"not ge\(len\((\w+)\), 1\)", l) for l in lits)
+    none_above = any(re.fullmatch(r"not truthy\((\w+)\)", l) for l in lits)
     ctx.check(want_eq in lits and none_above and len(lits) == 2, f, hits[0],
               "default election iff nobody reaches the threshold and remaining candidates == unfilled seats", bool_key(g),
               f"default-election branch is taken under `{bool_key(g)}`; documented `no tally >= threshold and {want_eq}`")
     # above_thresh_cands is the set of candidates with tally >= threshold of prev_state
-    m = next((re.fullmatch(r"not ge\(len\((\w+)\), 1\)", l) for l in lits if re.fullmatch(r"not ge\(len\((\w+)\), 1\)", l)), None)
+    m = next((re.fullmatch(r"not truthy\((\w+)\)", l) for l in lits if re.fullmatch(r"not truthy\((\w+)\)", l)), None)
     if m:
         dv = astx.unique_def(f.node, m.group(1))
         good = isinstance(dv, ast.ListComp) and astx.u(dv.generators[0].iter).endswith(".scores.items()") and len(dv.generators[0].ifs) == 1
@@ -405,7 +405,7 @@ def r8_transfer_wiring(ctx):
         if good:
             lits = literals(N.conj(astx.path_condition(f.node, cs[0], pm)))
             good = (("truthy(self.simultaneous)" in lits) if pol else ("not truthy(self.simultaneous)" in lits)) and \
-                any(re.fullmatch(r"ge\(len\(\w+\), 1\)", l) for l in lits)
+                any(re.fullmatch(r"truthy\(\w+\)", l) and l != "truthy(self.simultaneous)" for l in lits)
         ctx.check(good, f, cs[0] if cs else f.node, f"{helper} used iff someone reached the threshold and simultaneous is {pol}", "",
                   f"{helper} is not selected by `len(above_thresh) > 0 and simultaneous is {pol}`")
 
